@@ -1,7 +1,7 @@
 (** C07 — arithmetic evaluates as bash's wrapping 64-bit C-style integer arithmetic.
     Only pinned statements, [exact], and [Print Assumptions]. *)
 From BV Require Import Base.Prelude Arith.Wrap64 Arith.Ast Arith.Lit Arith.PegPrec Arith.Parse Arith.Eval
-  Arith.EvalProofs Arith.ParseProofs Arith.TokProofs Arith.CharLex Arith.CharProofs gen.C07ArithTable.
+  Arith.EvalProofs Arith.ParseProofs Arith.TokProofs Arith.CharLex Arith.CharProofs Arith.NumProofs gen.C07ArithTable.
 
 (** *** the parser table regenerated from brush-parser/src/arithmetic.rs is the C / bash operator
     table: same levels in the same order, same associativity, same operator texts, same AST
@@ -191,6 +191,24 @@ Theorem c07_fuel_hyps_nonvacuous :
     = RErr ERecLimit [([120%N], [120%N])].
 Proof. exact fuel_hyps_nonvacuous. Qed.
 Print Assumptions c07_fuel_hyps_nonvacuous.
+
+(** … and for brush's parser the hypothesis on numbers holds: the decimal rendering of any integer
+    parses to nothing, a literal, or a negated literal — so evaluation terminates, for every expression
+    and every environment whose values parse to weight <= H (or not at all) *)
+Theorem c07_number_weight : forall z, val_ok arith_parse 1 (show_Z z).
+Proof. exact number_weight. Qed.
+Print Assumptions c07_number_weight.
+Theorem c07_eval_terminates : forall nounset (H : nat) fuel e en, (1 <= H)%nat -> env_ok arith_parse H en ->
+  ((Z.to_nat (max_deref_depth arith_lex)) * S H + weight e < fuel)%nat ->
+  eval arith_parse nounset (max_deref_depth arith_lex) fuel e 0 en <> RFuel.
+Proof. exact eval_terminates. Qed.
+Print Assumptions c07_eval_terminates.
+Theorem c07_eval_terminates_nonvacuous :
+  env_ok arith_parse 1 [([120%N], [120%N])] /\
+  eval arith_parse false (max_deref_depth arith_lex) 2100 (ERef [120%N] None) 0 [([120%N], [120%N])]
+    = RErr ERecLimit [([120%N], [120%N])].
+Proof. exact eval_terminates_nonvacuous. Qed.
+Print Assumptions c07_eval_terminates_nonvacuous.
 
 (** *** parser and evaluator together: whatever brush's parser accepts evaluates to an i64 *)
 Theorem c07_parse_lits_in_range : forall s e, arith_parse s = Some e -> lits_inr e.
